@@ -1,5 +1,5 @@
 (* C09 - property theorems only: physically equivalent descriptions of a network.
-   T-tie theorems are about the kernels regenerated from the pandapipes sources on every run (coq/Gen/*);
+   T-tie theorems are about the kernels regenerated from the pandapipes sources on every run (directory coq/Gen);
    H-tie theorems are about C09/Model.v, which is compared with the real pit inside Coq on every run. *)
 From Coq Require Import List ZArith Bool Reals Permutation Lra Lia.
 From PP Require Import Kern.RBool.
